@@ -1,4 +1,5 @@
 #!/bin/sh
+export VK_NO_EVIDENCE=1
 # usage: sh vk/seedtest.sh <property> [tier]   -- runs the property's check against every seeded change for it
 PROP="$1"; TIER="${2:-quick}"
 HERE="$(cd "$(dirname "$0")/.." && pwd)"; cd "$HERE"
